@@ -173,6 +173,14 @@ SEARCH_PATTERNS = ["a", "f({{x}})", "f(a)", "t = {{v}}", "{{x}} = f({{y}})", "f(
                    "t = {{v}}\n{{...}}\nt = {{w}}"]
 
 
+# alternatives: a tuple of patterns matches where any of them matches, each node reported once (family added after the
+# seeded change C12-walk-wildcard-tuple-tried-not-yielded: a node that fails an earlier alternative of the same root
+# type and matches a later one was skipped). All ordered pairs and a few triples of the single-node patterns.
+_SINGLE = [p for p in SEARCH_PATTERNS if "\n" not in p] + ["t = b", "{{x}} = {{y}}", "f(f(a))", "{{g}}({{x}})", "b"]
+ALT_PATTERNS = [[a, b] for a in _SINGLE for b in _SINGLE if a != b] + [
+    ["f(a)", "f(f({{x}}))", "f({{x}})"], ["t = b", "t = f(a)", "t = {{v}}"], ["{{f}}(a)", "a", "f({{x}})"], ["b", "a", "f"]]
+
+
 def place(kind, stmts):
     ind = lambda k: "".join(" " * k + s + "\n" for s in stmts)
     tmpl = BODIES[kind]
@@ -419,10 +427,13 @@ def check_search(psrc, src):
 
     desc = {"pattern": psrc, "source": src}
     tree = ast.parse(src)
-    ref_t = _ref(psrc)
     starts = _offsets(src)
     off = lambda ln, col: starts[ln - 1] + col
-    want = sorted((off(a.lineno, a.col_offset), off(b.end_lineno, b.end_col_offset)) for a, b in refmatch.occurrences(ref_t, tree))
+    if isinstance(psrc, list):  # alternatives: union of the occurrences of each, a node counted once
+        want = sorted({(off(a.lineno, a.col_offset), off(b.end_lineno, b.end_col_offset)) for alt in psrc for a, b in refmatch.occurrences(_ref(alt), tree)})
+        psrc = tuple(psrc)
+    else:
+        want = sorted((off(a.lineno, a.col_offset), off(b.end_lineno, b.end_col_offset)) for a, b in refmatch.occurrences(_ref(psrc), tree))
     try:
         ms = list(pattern_matching.finditer(psrc, src))
         got = sorted((m.start, m.end) for m in ms)
@@ -446,7 +457,7 @@ def run_search(unit):
     for rest in itertools.product(alphabet, repeat=k - 1):
         stmts = [unit["first"]] + list(rest)
         src = place(unit["kind"], stmts)
-        for psrc in SEARCH_PATTERNS:
+        for psrc in SEARCH_PATTERNS + (ALT_PATTERNS if k <= 2 else ALT_PATTERNS[::7]):
             v, want = check_search(psrc, src)
             res["n"] += 1
             if want:
